@@ -30,7 +30,8 @@ RULE = ("cases: histories of add_sample (indices as list/tuple/set/ndarray, repe
         "designs, dyadic values), update, clear_data, flag toggles (as Auer/PaVeBa do), predict; shapes: "
         "single batch, interleaved rounds, clears (incl. empty clears), stale (update omitted), flags, "
         "rejected adds (index >= count, length mismatch), power-of-two counts, long PaVeBa-like runs, "
-        "a fixed family of tie cases (2/3/5 identical samples; single/split/interleaved; +-offset; int/float "
+        "a fixed family of two/three live model objects driven interleaved (each must behave as if alone; "
+        "no shared containers), a fixed family of tie cases (2/3/5 identical samples; single/split/interleaved; +-offset; int/float "
         "arrays; noise_var 0.25/1/4/0; tracked or not; then-one-different, two-distinct-then-duplicates), "
         "noise_var grid {0.0, 0, np 0.0, 1e-12, 0.25, 1, 4} (every 3rd case), large common offsets 2^20..2^30 / "
         "1e8 per (design, objective) with small dyadic spread (every 4th case), "
@@ -278,11 +279,102 @@ def _tie_cases(seed):
                        "noise_form": "float", "tm": True, "tv": tv0, "y1d": False, "ops": ops}
 
 
+def _multi_cases(seed):
+    """Deterministic family (own RNG sub-stream, in every run): two or three live EmpiricalMeanVarModel
+    objects in one process — same and different design_count / output_dim — with their calls interleaved
+    (add to A, construct B, add to B, update both, clear B, predict A, ...).  Each object must behave as if it
+    were alone."""
+    import random
+
+    rng = random.Random(f"C16-multi:{seed}")
+    for k in range(8):
+        nm = 2 if k % 3 else 3
+        same = k % 2 == 0
+        m0, c0 = rng.choice([1, 2, 3]), rng.randint(2, 5)
+        specs = []
+        for j in range(nm):
+            m, count = (m0, c0) if same else (rng.choice([1, 2, 3]), rng.randint(1, 6))
+            p = rng.choice([0, 1, 2])
+            ops = [_add(rng, m, count, p, size=rng.randint(2, 5), kind="list")]
+            ops += _history(rng, m, count, p, ["interleaved", "clears", "stale"][(k + j) % 3], False)
+            if j == nm - 1:
+                ops.insert(len(ops) // 2, {"op": "clear"})          # the later-built object is cleared in the middle
+            ops += _final(count)
+            specs.append({"m": m, "count": count, "noise": [0.25, 1.0, 4.0][(k + j) % 3], "noise_form": "float",
+                          "tm": True, "tv": True, "y1d": False, "ops": ops})
+        # schedule: A is built and gets its first samples, then B (then C) is built, then everything interleaves
+        sched = [0, 0]
+        left = [len(sp["ops"]) + 1 for sp in specs]
+        left[0] -= 2
+        for j in range(1, nm):
+            sched += [j, j]
+            left[j] -= 2
+            sched.append(0 if left[0] > 0 else j)
+            left[sched[-1]] -= 1
+        pool = [j for j in range(nm) for _ in range(max(0, left[j]))]
+        rng.shuffle(pool)
+        sched += pool
+        yield {"kind": "multi", "shape": "multi-instance", "specs": specs, "schedule": sched}
+
+
+def _run_multi(ctx, case):
+    specs = case["specs"]
+    probes = [_Probe(ctx, True) for _ in specs]
+    holders = [{} for _ in specs]
+    gens = [_execute_gen(probes[j], sp, sp["ops"], f"model{j}", True, True, holders[j]) for j, sp in enumerate(specs)]
+    done = [False] * len(specs)
+    results = [None] * len(specs)
+
+    def shared():
+        live = [h["model"] for h in holders if "model" in h]
+        for a in range(len(live)):
+            for b in range(a + 1, len(live)):
+                A, B = live[a], live[b]
+                if A.design_samples is B.design_samples:
+                    return "two model objects hold the same design_samples container"
+                for x in A.design_samples:
+                    for y in B.design_samples:
+                        if x is y or (x.size and y.size and np.shares_memory(x, y)):
+                            return "two model objects hold the same sample array"
+                for attr in ("means", "variances"):
+                    x, y = getattr(A, attr, None), getattr(B, attr, None)
+                    if isinstance(x, np.ndarray) and isinstance(y, np.ndarray) and (x is y or np.shares_memory(x, y)):
+                        return f"two model objects hold the same `{attr}` array"
+        return None
+
+    def advance(j):
+        if done[j]:
+            return
+        try:
+            next(gens[j])
+        except StopIteration as e:
+            done[j] = True
+            results[j] = e.value
+
+    for step, j in enumerate(list(case["schedule"]) + [j for j in range(len(specs)) for _ in range(10 ** 4)]):
+        if all(done):
+            break
+        advance(j)
+        why = shared()
+        if why:
+            ctx.violation("instances-share-state", why + " (every EmpiricalMeanVarModel must own its data)", case,
+                          detail={"step": step})
+            return
+        for i, pr in enumerate(probes):
+            if pr.failed is not None:
+                key, what, kind, detail = pr.failed
+                ctx.violation(key, f"with {len(specs)} live model objects driven interleaved, model {i}: " + what,
+                              case, kind=kind, detail={"model": i, "step": step, "detail": detail})
+                return
+    ctx.case_done(case, True)
+
+
 def gen(ctx):
     rng = ctx.rng
     thorough = ctx.tier == "thorough"
     if ctx.worker == 0:
         yield from _tie_cases(ctx.seed)
+        yield from _multi_cases(ctx.seed)
     for k in range(ctx.n(300, 20000)):
         shape = SHAPES[k % len(SHAPES)] if k < 3 * len(SHAPES) else rng.choice(SHAPES)
         m = rng.choice([1, 2, 2, 3, 4])
@@ -442,8 +534,18 @@ def _execute(ctx, case, ops, tag=""):
 
 
 def _execute_raw(ctx, case, ops, tag, scrub, mutate):
-    """Run one history on the real class, the Lean state machine (F) and the accumulator (R).
-    Returns the list of (idx, means, covs) of the successful predictions."""
+    g = _execute_gen(ctx, case, ops, tag, scrub, mutate)
+    try:
+        while True:
+            next(g)
+    except StopIteration as e:
+        return e.value
+
+
+def _execute_gen(ctx, case, ops, tag, scrub, mutate, holder=None):
+    """Run one history on the real class, the Lean state machine (F) and the accumulator (R); a generator
+    that pauses after the construction and after every call, so that several live model objects can be
+    driven interleaved (`multi` cases).  Returns the list of (idx, means, covs) of the successful predictions."""
     from vopy.models import EmpiricalMeanVarModel
 
     m, count, noise = case["m"], case["count"], case["noise"]
@@ -472,7 +574,10 @@ def _execute_raw(ctx, case, ops, tag, scrub, mutate):
             stat_cache[key] = (core.parse_qvec(ans[0]), core.parse_qmat(ans[1]))
         return stat_cache[key]
 
+    if holder is not None:
+        holder["model"] = model
     for k, op in enumerate(ops):
+        yield k
         kind = op["op"]
         if kind == "add":
             cont, order = _container(op["kind"], op["idx"])
@@ -713,6 +818,9 @@ def _execute_raw(ctx, case, ops, tag, scrub, mutate):
 
 def run_case(ctx, case):
     ctx.count("shape_" + case["shape"])
+    if case["kind"] == "multi":
+        _run_multi(ctx, case)
+        return
     if case["kind"] == "hist":
         r = _execute(ctx, case, case["ops"])
         nontrivial = bool(r) and isinstance(r, tuple) and r[1]
